@@ -28,6 +28,17 @@ fn m_key() -> CombinedKey {
 fn m_addr() -> SocketAddr {
     util::v4(10, 0, 0, 66, 9000)
 }
+/// The IPv4-mapped IPv6 spelling of an IPv4 socket address (and back): a different source
+/// address as far as the protocol is concerned.
+fn mapped(a: SocketAddr) -> SocketAddr {
+    match a {
+        SocketAddr::V4(v4) => SocketAddr::new(v4.ip().to_ipv6_mapped().into(), v4.port()),
+        SocketAddr::V6(v6) => match v6.ip().to_ipv4_mapped() {
+            Some(ip) => SocketAddr::new(ip.into(), v6.port()),
+            None => SocketAddr::V6(v6),
+        },
+    }
+}
 fn m_id() -> NodeId {
     util::node_id(&m_key())
 }
@@ -62,8 +73,8 @@ fn m_record(variant: u8, x: &Enr) -> Option<Enr> {
 /* event codes ------------------------------------------------------------------------ */
 // 0x01: MsgAs      claim (0 X, 1 M) << 8 | src (0 addr_M, 1 addr_X)
 // 0x02: Handshake  challenge idx << 16 | claim << 12 | record << 8 | sig
-// 0x03: Way        active-request idx << 8 | src (0 the request's destination, 1 addr_M, 2 destination IP with another port)
-// 0x04: Replay     log idx << 8 | src (0 original, 1 addr_M)
+// 0x03: Way        active-request idx << 8 | src (0 the request's destination, 1 addr_M, 2 destination IP with another port, 3 IPv4-mapped form of the destination)
+// 0x04: Replay     log idx << 8 | src (0 original, 1 addr_M, 2 IPv4-mapped form of the original)
 // 0x05: Answer     shape 0..7 (M answers V's oldest request to M)
 // 0x06: Late       more than a challenge lifetime passes
 fn code(kind: u32, arg: u32) -> u32 {
@@ -145,6 +156,7 @@ impl Driver for Attack {
                     out.push((Ev::Ext(code(3, (ai as u32) << 8)), 1));
                     out.push((Ev::Ext(code(3, (ai as u32) << 8 | 1)), 1));
                     out.push((Ev::Ext(code(3, (ai as u32) << 8 | 2)), 1));
+                    out.push((Ev::Ext(code(3, (ai as u32) << 8 | 3)), 1));
                 }
             }
         }
@@ -152,6 +164,7 @@ impl Driver for Attack {
             for d in w.log.iter().filter(|d| d.dst == w.nodes[V].addr && (d.kind == 2 || d.kind == 1)) {
                 out.push((Ev::Ext(code(4, (d.seq as u32) << 8)), 1));
                 out.push((Ev::Ext(code(4, (d.seq as u32) << 8 | 1)), 1));
+                out.push((Ev::Ext(code(4, (d.seq as u32) << 8 | 2)), 1));
             }
         }
         // let more than a challenge lifetime pass while a challenge is outstanding
@@ -238,7 +251,9 @@ impl Driver for Attack {
                         0 => a.addr.socket_addr,
                         1 => m_addr(),
                         // the request's destination IP, another port
-                        _ => SocketAddr::new(a.addr.socket_addr.ip(), a.addr.socket_addr.port() + 1),
+                        2 => SocketAddr::new(a.addr.socket_addr.ip(), a.addr.socket_addr.port() + 1),
+                        // the other spelling of the destination: IPv4-mapped IPv6 form, same port
+                        _ => mapped(a.addr.socket_addr),
                     };
                     let mut idn = [0u8; 16];
                     idn[0] = w.scratch.len() as u8 + 1;
@@ -250,7 +265,11 @@ impl Driver for Attack {
                 4 => {
                     let j = (arg >> 8) as usize;
                     let d = w.log[j].clone();
-                    let src = if arg & 0xf == 0 { d.src } else { m_addr() };
+                    let src = match arg & 0xf {
+                        0 => d.src,
+                        1 => m_addr(),
+                        _ => mapped(d.src),
+                    };
                     w.log_mark = w.log.len();
                     w.deliver_raw(V, src, &d.bytes, d.kind, d.nonce, d.origin).await;
                 }
@@ -420,7 +439,7 @@ pub fn regression_holds(payload: &serde_json::Value, prop: &str) -> bool {
         Some((_, c)) => c.clone(),
         None => return true,
     };
-    let monitors = Monitors { c03: prop == "C03", c04: false, c13: prop == "C13", c15: false, c19: false };
+    let monitors = Monitors { c03: prop == "C03", c04: prop == "C04", c13: prop == "C13", c15: false, c19: false };
     let d = driver(true);
     rt::run(run_history_with(&cfg, monitors, &hist, true, &d)).violation.is_none()
 }
@@ -433,14 +452,14 @@ pub fn replay(payload: &serde_json::Value, prop: &str) {
         Some((_, c)) => c.clone(),
         None => mc::machinery(&format!("unknown attack configuration {name}")),
     };
-    let monitors = Monitors { c03: prop == "C03", c04: false, c13: prop == "C13", c15: false, c19: false };
+    let monitors = Monitors { c03: prop == "C03", c04: prop == "C04", c13: prop == "C13", c15: false, c19: false };
     let d = driver(true);
     rt::run(crate::hsim::replay_verbose(&cfg, monitors, &hist, &d));
 }
 
 /// Runs the attacker worlds and returns (stats, violations for `prop`).
 pub fn explore(prop: &str, thorough: bool, budget_s: f64, k_max: u32) -> (mc::Stats, Vec<mc::Violation>, Vec<serde_json::Value>) {
-    let monitors = Monitors { c03: prop == "C03", c04: false, c13: prop == "C13", c15: false, c19: false };
+    let monitors = Monitors { c03: prop == "C03", c04: prop == "C04", c13: prop == "C13", c15: false, c19: false };
     let d = driver(thorough);
     let cfgs = configs(thorough);
     let start = clock::wall();
@@ -448,60 +467,84 @@ pub fn explore(prop: &str, thorough: bool, budget_s: f64, k_max: u32) -> (mc::St
     let mut total = mc::Stats { states: 0, transitions: 0, executions: 0, steps: 0, max_depth: 0, distinct_terminals: 0, counters: BTreeMap::new(), exhaustive: true, cap: None, per_budget: vec![] };
     let mut found = vec![];
     let mut samples = vec![];
-    for (name, cfg) in &cfgs {
-        let remaining = (budget_s - (clock::wall() - start)).min(per * 2.0);
-        if remaining < 1.0 {
-            total.exhaustive = false;
-            total.cap = Some("wall budget".into());
+    // Iterated bound: every world with at most 2 attacker moves (always completed), then every
+    // world again with 3, 4, … moves under the remaining wall budget, shared fairly; the highest
+    // bound completed in all worlds is reported.
+    let passes: Vec<u32> = if k_max > 2 { (2..=k_max).collect() } else { vec![k_max] };
+    let mut completed_bound = 0u32;
+    let _ = per;
+    for (pi, k) in passes.iter().enumerate() {
+        let mut pass_complete = true;
+        for (ci, (name, cfg)) in cfgs.iter().enumerate() {
+            let left = budget_s - (clock::wall() - start);
+            let remaining = if pi == 0 { budget_s.max(30.0) } else { left / (cfgs.len() - ci) as f64 };
+            if remaining < 0.5 {
+                pass_complete = false;
+                total.exhaustive = false;
+                total.cap = Some(format!("wall budget exhausted in the pass with bound {k}"));
+                break;
+            }
+            let limits = Limits { max_budget: *k, max_depth: 60, max_states: 2_000_000, wall_s: remaining };
+            let mut vio = vec![];
+            let mut smp = vec![];
+            let m = monitors.clone();
+            let stats = mc::explore(&limits, |h: &[Ev]| rt::run(run_history_with(cfg, m.clone(), h, true, &d)), |v, _| vio.push(v), |h, o| {
+                let _ = o;
+                smp.push(format!("{:?}", h));
+            });
+            // the deeper pass re-visits what the first pass saw: count its states only
+            if pi + 1 == passes.len() {
+                total.states += stats.states;
+                total.transitions += stats.transitions;
+                total.distinct_terminals += stats.distinct_terminals;
+            }
+            total.executions += stats.executions;
+            total.steps += stats.steps;
+            total.max_depth = total.max_depth.max(stats.max_depth);
+            for (k, v) in stats.counters {
+                *total.counters.entry(k).or_insert(0) += v;
+            }
+            if !stats.exhaustive {
+                pass_complete = false;
+                total.exhaustive = false;
+                total.cap = Some(format!("{name} (bound {k}): {}", stats.cap.unwrap_or_default()));
+            }
+            if pi + 1 == passes.len() {
+                if let Some(s) = smp.into_iter().last() {
+                    samples.push(json!({"world":name,"history":s}));
+                }
+            }
+            for mut v in vio {
+                // C02 reads the attribution clause of the same oracle: a request / response handed to
+                // the application as coming from P that P's side never encrypted
+                let also: Vec<String> = v.replay["also"].as_array().map(|a| a.iter().filter_map(|x| x.as_str().map(|s| s.to_string())).collect()).unwrap_or_default();
+                let attributed = also.iter().chain(std::iter::once(&v.key)).find(|k| k.starts_with("C01:attributed-without-proof:Request") || k.starts_with("C01:attributed-without-proof:Response")).cloned();
+                if let (true, Some(k)) = (prop == "C02", attributed) {
+                    v.key = k.replace("C01:attributed-without-proof", "C02:forged-attribution");
+                    v.clause = "every request or response handed to the application as coming from peer P was encrypted by P's side under keys of a handshake P completed with this node".into();
+                }
+                if v.key.starts_with(&format!("{prop}:")) || v.key.starts_with("panic:") {
+                    v.replay["workload"] = json!(name);
+                    v.replay["driver"] = json!("attack");
+                    found.push(v);
+                }
+            }
+        }
+        if pass_complete {
+            completed_bound = *k;
+        }
+        if !found.is_empty() {
             break;
         }
-        let limits = Limits { max_budget: k_max, max_depth: 60, max_states: 2_000_000, wall_s: remaining };
-        let mut vio = vec![];
-        let mut smp = vec![];
-        let m = monitors.clone();
-        let stats = mc::explore(&limits, |h: &[Ev]| rt::run(run_history_with(cfg, m.clone(), h, true, &d)), |v, _| vio.push(v), |h, o| {
-            let _ = o;
-            smp.push(format!("{:?}", h));
-        });
-        total.states += stats.states;
-        total.transitions += stats.transitions;
-        total.executions += stats.executions;
-        total.steps += stats.steps;
-        total.distinct_terminals += stats.distinct_terminals;
-        total.max_depth = total.max_depth.max(stats.max_depth);
-        for (k, v) in stats.counters {
-            *total.counters.entry(k).or_insert(0) += v;
-        }
-        if !stats.exhaustive {
-            total.exhaustive = false;
-            total.cap = stats.cap;
-        }
-        if let Some(s) = smp.into_iter().last() {
-            samples.push(json!({"world":name,"history":s}));
-        }
-        for mut v in vio {
-            // C02 reads the attribution clause of the same oracle: a request / response handed to
-            // the application as coming from P that P's side never encrypted
-            let also: Vec<String> = v.replay["also"].as_array().map(|a| a.iter().filter_map(|x| x.as_str().map(|s| s.to_string())).collect()).unwrap_or_default();
-            let attributed = also.iter().chain(std::iter::once(&v.key)).find(|k| k.starts_with("C01:attributed-without-proof:Request") || k.starts_with("C01:attributed-without-proof:Response")).cloned();
-            if let (true, Some(k)) = (prop == "C02", attributed) {
-                v.key = k.replace("C01:attributed-without-proof", "C02:forged-attribution");
-                v.clause = "every request or response handed to the application as coming from peer P was encrypted by P's side under keys of a handshake P completed with this node".into();
-            }
-            if v.key.starts_with(&format!("{prop}:")) || v.key.starts_with("panic:") {
-                v.replay["workload"] = json!(name);
-                v.replay["driver"] = json!("attack");
-                found.push(v);
-            }
-        }
     }
+    total.counters.insert("attacker_bound_completed_in_all_worlds", completed_bound as u64);
     (total, found, samples)
 }
 
 pub fn run_c01() {
     let mut rep = Report::new("C01", "model_checking");
     let thorough = rep.thorough();
-    let k: u32 = std::env::var("VERIF_K").ok().and_then(|v| v.parse().ok()).unwrap_or(if thorough { 5 } else { 4 });
+    let k: u32 = std::env::var("VERIF_K").ok().and_then(|v| v.parse().ok()).unwrap_or(if thorough { 5 } else { 3 });
     let (stats, found, samples) = explore("C01", thorough, mc::budget(thorough, 50.0, 1.0), k);
     rep.set("states", stats.states);
     rep.set("transitions", stats.transitions);
